@@ -594,6 +594,22 @@ def _():
     return out
 
 
+@fragment("Patterns", "user_template_io")
+def _():
+    """what UserTemplate.get_mask starts from and hands out (ownership of the returned array): text only"""
+    fn = find_def(PT, "UserTemplate.get_mask")
+    body = stmts_of(fn)
+    first = [s for s in body if isinstance(s, ast.Assign) and ast.unparse(s.targets[0]) == "result"]
+    rets = [s for s in body if isinstance(s, ast.Return)]
+    if not first or len(rets) != 1:
+        raise Untranslatable("UserTemplate.get_mask: `result = ...` / single return")
+    out = _fp("ut_init_expr", ast.unparse(first[0].value), "the array `UserTemplate.get_mask` pads / crops")
+    out += _fp("ut_return_expr", ast.unparse(rets[0].value), "what `UserTemplate.get_mask` hands to the caller")
+    tail = body[body.index([s for s in body if isinstance(s, ast.For)][0]) + 1:]
+    out += _fp("ut_tail", " ; ".join(ast.unparse(s) for s in tail))
+    return out
+
+
 @fragment("Patterns", "rgbs_geometry")
 def _():
     fn = find_def(PT, "RadialGradientBackgroundSubtraction.__init__")
